@@ -321,6 +321,26 @@ def run(ctx):
     if ucls:
         kw["classes"] = make_user_classes(ucls)
         ctx.probe("user-classes")
+    # a builtin model parsed from a string (no file name): its definitions are visible from every file
+    ctx.builtin = None
+    if family in ("plainuri", "fqnuri") and t.chance(1, 4, "builtin-model"):
+        from textx.scoping import ModelRepository
+        from ..gen import Ent
+
+        nb = 1 + t.draw(3, "n-builtin-defs")
+        btext = " ".join(f"def bi{i}" for i in range(nb))
+        bm = metamodel_from_str(grammar()).model_from_str(btext)
+        repo = ModelRepository()
+        repo.add_model(bm)
+        ents = []
+        for i in range(nb):
+            e = Ent("def", f"bi{i}", None, None)
+            e.idx = i
+            e.start, e.stop = i * 8, i * 8 + 7
+            ents.append(e)
+        ctx.builtin = {"model": bm, "repo": repo, "ents": ents}
+        kw["builtin_models"] = repo
+        ctx.probe("builtin-model-without-file-name")
     # two registered languages: files f<odd>.n belong to a second metamodel instance with its *own* tool-support flag
     ctx.lang2 = None
     if family in ("plainuri", "fqnuri") and t.chance(1, 4, "two-languages"):
@@ -367,7 +387,8 @@ def episode(ctx, t, prop, family, tools, memo, mm, rep):
     inner = family in ("plainuri", "fqnuri") and t.chance(1, 3, "scripted-provider-inside-importuri")
     w = gen_world(t, root, nfiles=nfiles, qualified=family in QUALIFIED, max_refs=16,
                   alt_multipart=family == "rrel",  # FQN splits at '.', only RREL honours the match rule's split
-                  shadows=inner, second_ext=".n" if ctx.lang2 else None)
+                  shadows=inner, second_ext=".n" if ctx.lang2 else None,
+                  builtin_defs=ctx.builtin["ents"] if ctx.builtin else ())
     if inner:
         ctx.probe("scripted-provider-inside-importuri")
         if w.shadow_defs:
@@ -409,6 +430,7 @@ def episode(ctx, t, prop, family, tools, memo, mm, rep):
     def build(scheduler):
         m2 = metamodel_from_str(grammar(), textx_tools_support=tools, memoization=memo,
                                 **({"global_repository": True} if family == "plaingr" else {}),
+                                **({"builtin_models": ctx.builtin["repo"]} if ctx.builtin else {}),
                                 **({"classes": make_user_classes(ctx.ucls)} if ctx.ucls else {}))
         m2.register_scope_providers({"*.*": make_provider(family, root, scheduler, ctx, inner)})
         second_language(scheduler, m2)
@@ -420,6 +442,7 @@ def episode(ctx, t, prop, family, tools, memo, mm, rep):
         if not ctx.lang2:
             return
         mn = metamodel_from_str(grammar(), textx_tools_support=ctx.lang2["tools"], memoization=memo,
+                                **({"builtin_models": ctx.builtin["repo"]} if ctx.builtin else {}),
                                 **({"classes": make_user_classes(ctx.ucls)} if ctx.ucls else {}))
         mn.register_scope_providers({"*.*": make_provider(family, root, scheduler, ctx, inner)})
         textx.clear_language_registrations()
@@ -491,6 +514,8 @@ def episode(ctx, t, prop, family, tools, memo, mm, rep):
 
     # ---------------- success path
     models = collect_models(model)
+    if ctx.builtin:
+        models[None] = ctx.builtin["model"]
     if anon:
         models[w.main] = model
         ctx.probe("anonymous-main-with-global-repository")
